@@ -1005,6 +1005,57 @@ def gen_nonfinite(rng, k, rot):
     return ctx, r, {"__approx__": 1.0, "__nonfinite__": 1.0}
 
 
+# ---------------------------------------------------------------------------------------------
+# reductions over Variable objects the argument does not mention (multiplicity of constant factors)
+# ---------------------------------------------------------------------------------------------
+
+ABSENT_GRID = [(kind, op) for kind in ("fully-absent", "partly-absent") for op in ("add", "mul", "logaddexp", "max")]
+ABSENT_ARGS = ["tensor-other-inputs", "scalar-tensor", "number", "compound", "lazy-x"]
+
+
+def gen_absent_reduce(rng, k, rot):
+    """x.reduce(op, {Variable(j), …}) where NONE (or only some) of the reduced Variables is an input of x: the
+    value is x combined with itself |j| times — n·x, x**n, x + log n, x.  Every interpretation, `sequential`
+    included, has to apply that multiplicity."""
+    kind, op = ABSENT_GRID[k % len(ABSENT_GRID)]
+    argk = ABSENT_ARGS[(k // len(ABSENT_GRID) + rot) % len(ABSENT_ARGS)]
+    ctx = gen_ctx(rng)
+    while len(ctx) < 3:
+        ctx[NAMES[len(ctx)]] = rng.choice([2, 3])
+    names = list(ctx)
+    rng.shuffle(names)
+    absent = [at_least2(ctx, n) for n in names[:rng.choice([1, 1, 2])]]
+    others = [n for n in names if n not in absent]
+    env = {}
+
+    def tensor(ns):
+        tt = gen_terms.gen_tensor(rng, ctx, "real", names=ns)
+        if op in ("logaddexp", "mul"):
+            tt = tt[:4] + (np.abs(tt[4]) + (1.0 if op == "mul" else 0.0),)
+        return tt
+    if argk == "tensor-other-inputs":
+        a = tensor([n for n in others if rng.random() < 0.7] or others[:1])
+    elif argk == "scalar-tensor":
+        a = tensor([])
+    elif argk == "number":
+        a = ("num", float(rng.choice([1, 2, 3])), "real")
+    elif argk == "compound":
+        a = ("binary", rng.choice(["add", "mul"]), tensor(others[:1]), tensor([n for n in others if rng.random() < 0.5]))
+    else:
+        a = ("binary", "add", ("var", "x", Real), tensor(others[:1]))
+        env["x"] = rng.choice([0.5, 2.0, 3.0])
+    present = ()
+    if kind == "partly-absent":
+        _, free = recipe_wire(a)
+        fn = sorted(n for n, v in free.items() if v != "real")
+        if fn:
+            present = (rng.choice(fn),)
+    r = ("reduce", op, a, present, tuple((n, ctx[n]) for n in sorted(absent)))
+    if op == "logaddexp":
+        env["__approx__"] = 1.0
+    return ctx, r, env
+
+
 def cases(base_seed, n):
     """The seeded case list: [(ctx, recipe, family, env)]; env binds the free real inputs; the pseudo-binding
     "__approx__" marks expressions with inexact ops (compared after rounding).  Families by idx mod 12."""
@@ -1024,6 +1075,10 @@ def cases(base_seed, n):
             if carrier_risky(recipe):
                 recipe = to_nonneg(recipe)
             out.append((ctx, recipe, "dup-children(variadic node lists one child twice)", env))
+        elif m == 2 and (idx // 12) % 2 == 1:
+            ctx, recipe, env = gen_absent_reduce(rng, cnt["absent"], rot)
+            cnt["absent"] += 1
+            out.append((ctx, recipe, "absent-reduce(reduced Variables not among the argument's inputs)", env))
         elif m == 2:
             ctx, recipe, env = gen_seq_lazy(rng)
             out.append((ctx, recipe, "seq-lazy", env))
